@@ -453,7 +453,60 @@ def rule_f(chk: Check, eng: Engine) -> None:
             chk.ok("R01-f", f.fq, f.line, "reads the repetition tags of every node it visits (no filter by symbol kind)")
 
 
+START_TAKERS = {"parse": 1, "fuzz": 0, "parse_forest": 1, "parse_multiple": 1}  # Grammar method -> positional index of `start`
+
+
+def rule_g(chk: Check, eng: Engine) -> None:
+    """R01-g: Grammar.parse / fuzz / parse_forest / parse_multiple default to '<start>'.  The search, the API and the repair
+    work under a *requested* start symbol (or under the symbol of the node they replace): a call that relies on the default
+    yields trees of another symbol whenever the two differ."""
+    gcls = eng.cls("fandango.language.grammar.grammar", "Grammar")
+    for mname, idx in START_TAKERS.items():
+        m = eng.method(gcls, mname)
+        ps = [p for p in m.params() if p != "self"]
+        if len(ps) <= idx or ps[idx] != "start":
+            raise AnalysisError(f"Grammar.{mname}: parameter `start` is no longer at position {idx}")
+    n = 0
+    for f in eng.ix.all_functions:
+        if not f.module.startswith(("fandango.evolution", "fandango.api", "fandango.constraints", "fandango.io", "fandango.cli")):
+            continue
+        holder_attrs = set()
+        if f.cls is not None:
+            holder_attrs = {a for a in f.cls.instance_attr_annotations() if "start_symbol" in a} | \
+                           {x.attr for mm in f.cls.methods.values() for x in ast.walk(mm.node) if isinstance(x, ast.Attribute) and isinstance(x.ctx, ast.Store) and "start_symbol" in x.attr}
+        tenv = None
+        for c in walk_local(f.node):
+            if not (isinstance(c, ast.Call) and isinstance(c.func, ast.Attribute) and c.func.attr in START_TAKERS):
+                continue
+            recv = c.func.value
+            rname = norm(recv)
+            if tenv is None:
+                tenv = eng.env(f)
+            rt = tenv.type_of(recv)
+            is_grammar = any(t.endswith(":Grammar") for t in rt) or (not rt and rname.split(".")[-1] in ("grammar", "_grammar"))
+            if not is_grammar:
+                continue
+            n += 1
+            idx = START_TAKERS[c.func.attr]
+            arg = get_kwarg(c, "start")
+            if arg is None and len(c.args) > idx and not any(isinstance(a, ast.Starred) for a in c.args[:idx + 1]):
+                arg = c.args[idx]
+            if arg is None:
+                chk.bad("R01-g", eng.relfile(f), c.lineno, f.fq, f"`{short(c, 70)}` relies on the default start symbol '<start>'",
+                        "with a requested start symbol other than <start> the tree is parsed / generated under the wrong symbol: valid inputs are rejected and "
+                        "trees of another symbol are emitted", keyparts=f"default-start|{c.func.attr}")
+            elif holder_attrs and not any(isinstance(x, ast.Attribute) and x.attr in holder_attrs for x in ast.walk(arg)) and not (names_in(arg) & {"start_symbol", "start", "symbol"}):
+                chk.bad("R01-g", eng.relfile(f), c.lineno, f.fq, f"`{short(c, 70)}` passes `{short(arg, 30)}`, not the start symbol this object was configured with ({sorted(holder_attrs)})",
+                        "the requested start symbol is ignored", keyparts=f"other-start|{c.func.attr}")
+            else:
+                chk.ok("R01-g", f.fq, c.lineno, f"`{short(c, 60)}` names its start symbol: `{short(arg, 40)}`")
+    if n < 4:
+        raise AnalysisError(f"only {n} Grammar.parse/fuzz call sites found in the search, API and repair code")
+
+
 def run(chk: Check, eng: Engine) -> None:
+    chk.rule("R01-g", "no parse / fuzz issued by the search, the API or the repair relies on the default start symbol", floor=4)
+    rule_g(chk, eng)
     chk.rule("R01-f", "readers of the repetition tags enumerate the same nodes the writers tag (no filter by symbol kind on one side only)", floor=4)
     rule_f(chk, eng)
     chk.rule("R01-a", "foreign subtrees are installed only behind path-match and same-symbol and not-read-only", floor=4)
@@ -483,6 +536,9 @@ _N = "src/fandango/language/grammar/nodes/node.py"
 _CMP = "src/fandango/constraints/comparison.py"
 _CX = "src/fandango/evolution/crossover.py"
 MUTANTS = [
+    M("initial-population-default-start", "src/fandango/evolution/algorithm.py", "                tree = self.grammar.parse(individual, start=self.start_symbol)\n", "                tree = self.grammar.parse(individual)\n", "R01-g"),
+    M("api-parse-default-start", "src/fandango/api.py", "            word, mode=mode, start=self._start_symbol, **settings\n", "            word, mode=mode, **settings\n", "R01-g"),
+    M("population-fuzz-fixed-start", "src/fandango/evolution/population.py", "        return self._grammar.fuzz(self._start_symbol, max_nodes)\n", "        return self._grammar.fuzz(\"<start>\", max_nodes)\n", "R01-g"),
     M("tag-reader-skips-terminals", _T, "                child.find_by_origin(node_id)\n                for child in [*self._children, *self._sources]\n",
       "                child.find_by_origin(node_id)\n                for child in [*self._children, *self._sources]\n                if child.symbol.is_non_terminal\n", "R01-f"),
     M("delete-rounds-skips-terminals", "src/fandango/constraints/repetition_bounds.py", "            if len(matching_o_nodes) == 0:\n", "            if len(matching_o_nodes) == 0 or child.symbol.is_terminal:\n", "R01-f"),
